@@ -271,8 +271,17 @@ func (e *Engine) exec(fr *Frame, ins ssa.Instruction) {
 		e.nextObj++
 		fr.regs[x] = MapV{&MapObj{id: e.nextObj, keyT: mt.Key(), valT: mt.Elem()}}
 	case *ssa.MakeChan:
-		sz := e.concreteInt(e.get(fr, x.Size).(*Term), "makechan size")
-		fr.regs[x] = ChanV{e.newChan(x.Type().Underlying().(*types.Chan).Elem(), sz)}
+		szT := e.get(fr, x.Size).(*Term)
+		if szT.IsConst() {
+			sz := e.concreteInt(szT, "makechan size")
+			fr.regs[x] = ChanV{e.newChan(x.Type().Underlying().(*types.Chan).Elem(), sz)}
+		} else {
+			// symbolic capacity: cap() yields the term; blocking on a full buffer is not modelled for this channel
+			c := e.newChan(x.Type().Underlying().(*types.Chan).Elem(), 1<<20)
+			c.capTerm = szT
+			e.stub("makechan(symbolic capacity)")
+			fr.regs[x] = ChanV{c}
+		}
 	case *ssa.MakeSlice:
 		ln := e.concreteInt(e.get(fr, x.Len).(*Term), "makeslice len")
 		cp := e.concreteInt(e.get(fr, x.Cap).(*Term), "makeslice cap")
@@ -821,6 +830,9 @@ func (e *Engine) builtin(name string, args []Value, c *ssa.CallCommon) Value {
 		case ChanV:
 			if x.C == nil {
 				return e.intConst(64, 0)
+			}
+			if x.C.capTerm != nil {
+				return x.C.capTerm
 			}
 			return e.intConst(64, int64(x.C.cap))
 		}
